@@ -4,7 +4,7 @@
    that parameter gives the specification's answer, hence the same answer. *)
 From Memchr Require Import Spec SpecProofs Params
   Mem.Wrappers Mem.WrappersProofs Mem.Iter Mem.IterProofs
-  Sub.Prefilter Sub.TwoWay Sub.TwoWayCert Sub.TwoWayTier2 Sub.Searcher Sub.SearcherProofs.
+  Sub.Prefilter Sub.TwoWay Sub.TwoWayCert Sub.TwoWayTier2 Sub.TwoWayTier2Rev Sub.Searcher Sub.SearcherProofs.
 
 Example C09_saturating_multiply : pre_mul_saturating = true.
 Proof. reflexivity. Qed.
@@ -86,6 +86,14 @@ Proof.
   congruence.
 Qed.
 
+Lemma rev_cert_always : forall x, tw_reach_rev x = true -> tw_cert_rev_of x = true.
+Proof. intros x H. apply tw_cert_rev_all. unfold tw_reach_rev in H. apply Nat.leb_le in H. lia. Qed.
+
+Theorem C09_memmem_rfind : forall (ar1 ar2 : arch) a1 a2 h x, bytes_ok x -> bytes_ok h ->
+  fst (memmem_rfind ar1 a1 h x) = fst (memmem_rfind ar2 a2 h x).
+Proof. intros ar1 ar2 a1 a2 h x Hx Hh. apply C09_memmem_rfind_partial; [exact Hx|exact Hh|apply rev_cert_always]. Qed.
+
+Print Assumptions C09_memmem_rfind.
 Print Assumptions C09_memchr.
 Print Assumptions C09_count.
 Print Assumptions C09_dispatch.
